@@ -612,6 +612,45 @@ fn exec_c<C: Suite>(scen: &Scenario) -> Exec {
                 }
             }
         }
+        // (c') unknown participant, distributed, REPLACING a member: the run is exactly as large as the refreshing set, one of the
+        // members is absent and a stranger sits in its place (a removed participant coming back, or a newcomer)
+        if others.len() >= 2 {
+            let max = m as u16;
+            let rng = SimRng::good(stream(scen.seed, scen.run, "c10/reject/dkg/replace/outsider"));
+            let out1 = refresh::refresh_dkg_part1::<C, _>(outsider, max, t, rng);
+            let v1 = part1(victim_node, max, t, "replace");
+            if let (Ok((osec, opkg)), Ok((vsec, _))) = (out1, v1) {
+                let mut r1: BTreeMap<Identifier<C>, round1::Package<C>> = BTreeMap::new();
+                let mut secs: BTreeMap<Identifier<C>, round1::SecretPackage<C>> = BTreeMap::new();
+                // every other member but the last one, plus the stranger
+                for o in others.iter().take(others.len() - 1) {
+                    let (s, p) = part1(*o, max, t, "replace").unwrap();
+                    r1.insert(sim.ids[*o], p);
+                    secs.insert(sim.ids[*o], s);
+                }
+                r1.insert(outsider, opkg);
+                secs.insert(outsider, osec);
+                rep.evaluations += 1;
+                match refresh::refresh_dkg_part2::<C>(vsec, &r1) {
+                    Err(_) => rep.probe("reject_unknown_dkg_replacing"),
+                    Ok((s2, _)) => {
+                        let mut r2: BTreeMap<Identifier<C>, round2::Package<C>> = BTreeMap::new();
+                        for (id, sec) in &secs {
+                            let coeffs = crate::props::c07::r1_secret_coeffs::<C>(&serde_json::to_string(sec).unwrap()).unwrap();
+                            let v = poly_eval::<C>(&coeffs, id_scalar::<C>(victim.identifier()));
+                            r2.insert(*id, round2::Package::new(share_from_scalar::<C>(&v)));
+                        }
+                        if let Ok((_, npk)) = refresh::refresh_dkg_shares::<C>(&s2, &r1, &r2, cur_pk.clone(), victim.clone()) {
+                            return Exec::Violation(
+                                viol("C10.unknown_participant_accepted", format!("distributed refresh completed although a stranger took the place of a member (run of {max}); the refreshed package lists {} participants", npk.verifying_shares().len())),
+                                rep,
+                            );
+                        }
+                        rep.probe("reject_unknown_dkg_replacing");
+                    }
+                }
+            }
+        }
         // (d) non-zero constant term, distributed: the Byzantine peer's polynomial has f(0) != 0
         {
             let Ok((vsec, _)) = part1(victim_node, m as u16, t, "nonzero") else { return Exec::Harness("part1".into()) };
